@@ -877,3 +877,44 @@ Proof.
     apply Hle. reflexivity.
 Qed.
 
+
+(* ------------------------------------------------------------------ update_clocks never fires in the emulator *)
+(* With unsorted = 0 every stream is individually checked by stream_step and the heap pops the
+   minimum, so the "backwards jump in time" test of update_clocks is unreachable. *)
+
+Definition MInv (st : pst) : Prop :=
+  (forall k id f l, In (k, id) (p_heap st) -> p_clk st = Some (f, l) -> l <= k) /\
+  (forall id sl, p_cur st = Some (id, sl) -> exists f, p_clk st = Some (f, sl)).
+
+Lemma ploop_no_backplayer offs fuel : forall st out v,
+  PInv offs st -> MInv st -> ploop true offs fuel st = (out, v) -> v <> VBackPlayer.
+Proof.
+  induction fuel as [|f IH]; intros st out v HI [M1 M2] E; [inversion E; discriminate|].
+  rewrite ploop_S in E.
+  destruct (pstep_cases true offs st HI) as [[E1 _] | [[id [sl [e [r [E1 _]]]]] | [[E1 [_ [f0 [l0 [x [Eclk [Hlt Hx]]]]]]] | [e [st' [E1 HE]]]]]];
+    rewrite E1 in E.
+  - inversion E; discriminate.
+  - inversion E; discriminate.
+  - exfalso. destruct Hx as [Hin | [id [sl [ev [r [Ec [_ [Ex Hle]]]]]]]].
+    + destruct x as [k id]. specialize (M1 k id f0 l0 Hin Eclk). cbn in Hlt. lia.
+    + destruct (M2 id sl Ec) as [f' Eclk']. rewrite Eclk in Eclk'. inversion Eclk'; subst.
+      specialize (Hle eq_refl). cbn in Hlt. lia.
+  - destruct (ploop true offs f st') as [l v'] eqn:El. inversion E; subst.
+    apply (IH st' l v (em_inv _ _ _ _ _ HE)); auto.
+    split.
+    + intros k id f0 l0 Hin Eclk. rewrite (em_clk _ _ _ _ _ HE) in Eclk. inversion Eclk; subst.
+      eapply (em_min _ _ _ _ _ HE); eauto.
+    + intros id sl Ec. rewrite (em_cur _ _ _ _ _ HE) in Ec. inversion Ec; subst.
+      rewrite (em_clk _ _ _ _ _ HE). eauto.
+Qed.
+
+Theorem run_no_backplayer ss out v : run true ss = (out, v) -> v <> VBackPlayer.
+Proof.
+  rewrite run_unfold. pose proof (pinit_run true ss) as Hi.
+  destruct (pinit true (map s_off ss) 0 (map s_evs ss) []) as [v0|h].
+  { intros E. inversion E; subst. destruct Hi as [_ [[id ->] _]]. discriminate. }
+  destruct Hi as [HI _].
+  destruct (true && negb (gate_ok ss)); [intros E; inversion E; discriminate|].
+  intros E. eapply ploop_no_backplayer; eauto.
+  split; cbn [p_heap p_cur p_clk]; intros; discriminate.
+Qed.
